@@ -191,6 +191,16 @@ def run(ctx):
         n_types += n
         rep.check(not probs, 'R1', 'storage-shape:%s' % r, r, 'no shared storage reachable (%d types visited)' % n,
                   'a state value can reach shared or unsynchronised storage: %s' % probs[:3])
+    # the optimiser is handed to `optimise_state(&self, ..)` by shared reference — one value may serve several replicas at once —
+    # so it must be plain data too: no interior mutability (counters, caches), nothing shared
+    for r in ('optimisation::MCOptimiser', 'optimisation::BuildOptimiser'):
+        if not rep.check(f.type_info(r) is not None and r in f.types, 'R1', 'anchor:type:%s' % r, r, 'found',
+                         'type %s not found in the type graph' % r, 'anchor-lost'):
+            continue
+        probs, n = storage_problems(f.types, r)
+        n_types += n
+        rep.check(not probs, 'R1', 'optimiser-is-plain-data:%s' % r, r, 'no interior mutability or shared storage (%d types visited)' % n,
+                  'the optimiser holds state that concurrent replicas using the same optimiser would share: %s' % probs[:3])
     sv = f.types.get('basis::SharedValue')
     ok = False
     if sv:
@@ -394,6 +404,15 @@ def _closures(ctx):
         rep.sample('stage #%d: %s; state %s' % (ci, ' <- '.join(chain), 'fresh clone' if ci == 1 else 'previous stage'))
     if stages:
         co = t.origin(cands[0][1]['args'][0])
+        if co['o'] == 'rvalue' and not co.get('p') and co['rv'].get('r') == 'aggr' and co['rv'].get('agg') in ('adt', 'tuple'):
+            # the candidate is a record carrying the state (`Replica { state, index }`, `(state, index)`): what the reduction
+            # compares in it is C10.R1's subject; here the state component must be the last stage's result
+            for op in co['rv']['ops']:
+                if 'l' not in op:
+                    continue
+                o2 = t.origin(op)
+                if o2['o'] == 'call' and o2.get('bb') == stages[-1][0]:
+                    co = o2
         rep.check(co['o'] == 'call' and co.get('bb') == stages[-1][0], 'R4', 'candidate-is-the-last-stage', where(b, cands[0][0]),
                   'the value handed to the reduction is the result of the last stage',
                   'the value handed to the reduction is not the result of the last optimisation stage')
